@@ -1,7 +1,7 @@
 use serde_json::Value;
 
 use crate::ConvertResult;
-use crate::lua_emitter::EmmyLuaEmitter;
+use crate::lua_emitter::{EmmyLuaEmitter, string_literal_type, type_name};
 use crate::markdown_doc::sanitize_description;
 use crate::schema_walker::SchemaWalker;
 
@@ -52,29 +52,23 @@ impl SchemaConverter {
 
         // Emit aliases (enums)
         for (name, def_schema) in &alias_defs {
-            let prefixed = format!("{}{}", self.type_prefix, name);
+            let prefixed = type_name(&self.type_prefix, name);
             self.emit_definition(&walker, &mut emitter, &prefixed, def_schema);
             emitter.blank_line();
         }
 
         // Emit classes from $defs
         for (name, def_schema) in &class_defs {
-            let prefixed = format!("{}{}", self.type_prefix, name);
+            let prefixed = type_name(&self.type_prefix, name);
             self.emit_definition(&walker, &mut emitter, &prefixed, def_schema);
             emitter.blank_line();
         }
 
-        let mut root_type_name = "schema.root".to_string();
-        // Emit the root schema as a class
-        if let Some(title) = walker.root_title() {
-            root_type_name = format!("{}{}", self.type_prefix, title);
-            let root = walker.root_schema();
-            if root.get("properties").is_some() {
-                let prefixed = format!("{}{}", self.type_prefix, title);
-                self.emit_object_class(&walker, &mut emitter, &prefixed, root);
-                emitter.blank_line();
-            }
-        }
+        // Emit the root schema under its title (`root` when it has none); whatever its kind, the
+        // reported root type is always declared.
+        let root_type_name = type_name(&self.type_prefix, walker.root_title().unwrap_or("root"));
+        self.emit_definition(&walker, &mut emitter, &root_type_name, walker.root_schema());
+        emitter.blank_line();
 
         ConvertResult {
             annotation_text: emitter.finish(),
@@ -128,6 +122,7 @@ impl SchemaConverter {
             }
             // Simple enum: ---@alias Name "v1" | "v2" | ...
             self.emit_enum_alias(emitter, name, enum_values);
+            emitter.end_alias();
         } else if let Some(one_of) = schema.get("oneOf").and_then(|v| v.as_array()) {
             if let Some(desc) = schema.get("description").and_then(|v| v.as_str()) {
                 emitter.write_doc_comment(&sanitize_description(desc));
@@ -142,11 +137,13 @@ impl SchemaConverter {
                 // oneOf with mixed types → alias with type variants
                 self.emit_one_of_type_alias(walker, emitter, name, one_of);
             }
+            emitter.end_alias();
         } else if schema.get("anyOf").is_some() && schema.get("properties").is_none() {
             if let Some(desc) = schema.get("description").and_then(|v| v.as_str()) {
                 emitter.write_doc_comment(&sanitize_description(desc));
             }
             self.emit_any_of_alias(walker, emitter, name, schema);
+            emitter.end_alias();
         } else if schema.get("properties").is_some()
             || schema.get("type").and_then(|v| v.as_str()) == Some("object")
         {
@@ -264,8 +261,7 @@ impl SchemaConverter {
         if let Some(additional) = schema.get("additionalProperties") {
             if additional.is_object() {
                 let value_ty = self.resolve_type(walker, additional);
-                let index_ty = format!("[string] : {}", value_ty);
-                emitter.write_field(&index_ty, "", Some("Additional properties"));
+                emitter.write_index_field("string", &value_ty, Some("Additional properties"));
             }
         }
 
@@ -281,10 +277,8 @@ impl SchemaConverter {
         // Check if nullable from type array like ["string", "null"]
         let is_nullable = self.is_nullable(schema);
 
-        if is_nullable || optional {
-            if !ty.ends_with('?') {
-                ty.push('?');
-            }
+        if (is_nullable || optional) && !ty.ends_with('?') {
+            ty = format!("{}?", parenthesized(ty));
         }
 
         ty
@@ -317,7 +311,7 @@ impl SchemaConverter {
         // $ref → type name with prefix
         if let Some(ref_str) = schema.get("$ref").and_then(|v| v.as_str()) {
             let name = SchemaWalker::ref_type_name(ref_str).unwrap_or("any");
-            return format!("{}{}", self.type_prefix, name);
+            return type_name(&self.type_prefix, name);
         }
 
         // anyOf → union type (excluding null)
@@ -330,11 +324,7 @@ impl SchemaConverter {
             let has_null = any_of
                 .iter()
                 .any(|item| item.get("type").and_then(|v| v.as_str()) == Some("null"));
-            let mut result = types.join(" | ");
-            if has_null {
-                result.push('?');
-            }
-            return result;
+            return union_type(types, has_null);
         }
 
         // oneOf → check if it's a string enum or union
@@ -344,13 +334,13 @@ impl SchemaConverter {
                 .filter(|item| item.get("type").and_then(|v| v.as_str()) != Some("null"))
                 .map(|item| {
                     if let Some(const_val) = item.get("const").and_then(|v| v.as_str()) {
-                        format!("\"{}\"", const_val)
+                        string_literal_type(const_val)
                     } else {
                         self.resolve_type(walker, item)
                     }
                 })
                 .collect();
-            return types.join(" | ");
+            return union_type(types, false);
         }
 
         // type field
@@ -364,11 +354,7 @@ impl SchemaConverter {
                     .map(|t| self.json_type_to_lua(t))
                     .collect();
                 let has_null = arr.iter().any(|t| t.as_str() == Some("null"));
-                let mut result = types.join(" | ");
-                if has_null {
-                    result.push('?');
-                }
-                return result;
+                return union_type(types, has_null);
             }
 
             // Simple type
@@ -381,7 +367,7 @@ impl SchemaConverter {
                         } else {
                             "any".to_string()
                         };
-                        return format!("{}[]", item_type);
+                        return format!("{}[]", parenthesized(item_type));
                     }
                     "object" => {
                         // Object with additionalProperties
@@ -405,14 +391,14 @@ impl SchemaConverter {
             let variants: Vec<String> = enum_values
                 .iter()
                 .filter_map(|v| v.as_str())
-                .map(|s| format!("\"{}\"", s))
+                .map(string_literal_type)
                 .collect();
-            return variants.join(" | ");
+            return union_type(variants, false);
         }
 
         // const
         if let Some(const_val) = schema.get("const").and_then(|v| v.as_str()) {
-            return format!("\"{}\"", const_val);
+            return string_literal_type(const_val);
         }
 
         "any".to_string()
@@ -430,6 +416,42 @@ impl SchemaConverter {
             "array" => "any[]".to_string(),
             _ => "any".to_string(),
         }
+    }
+}
+
+/// The union of `types`; a union of nothing is `any`. A nullable member makes the whole union
+/// nullable (`a? | b` is not a type the annotation parser reads).
+fn union_type(types: Vec<String>, mut nullable: bool) -> String {
+    let mut members = Vec::new();
+    for ty in types {
+        let ty = match ty.strip_suffix('?') {
+            Some(inner) => {
+                nullable = true;
+                inner.to_string()
+            }
+            None => ty,
+        };
+        if !ty.is_empty() && !members.contains(&ty) {
+            members.push(ty);
+        }
+    }
+    let union = match members.len() {
+        0 => "any".to_string(),
+        _ => members.join(" | "),
+    };
+    if nullable {
+        format!("{}?", parenthesized(union))
+    } else {
+        union
+    }
+}
+
+/// Wrap a union or nullable type so that a postfix (`?`, `[]`) applies to all of it.
+fn parenthesized(ty: String) -> String {
+    if ty.contains(" | ") || ty.ends_with('?') {
+        format!("({})", ty)
+    } else {
+        ty
     }
 }
 
